@@ -392,8 +392,35 @@ def main():
         ck.cov["evaluations"] += 1
         want = {"C12-alias-unsupported": [[[1], [10], [100]], [[2], [21], [200]], [[3], [31], [300]]], "C12-qualified-unsupported": [[[1], [10], [100]]],
                 "C12-set-expression": [[[1], [10], [100]], [[2], [22], [200]], [[3], [32], [300]]]}[fid]
-        if o["err"] or o["t"] != want:
-            known_or_report(fid, f"`{sql}`: {o['err'] or o['t']}", {"sql": sql, "impl": o})
+        if o["err"] and o["t"] == sorted(T):
+            known_or_report(fid, f"`{sql}`: {o['err']}", {"sql": sql, "impl": o})         # rejected, nothing changed: the recorded finding
+        elif o["err"] or o["t"] != want:
+            report(f"unsupported:{fid}", f"`{sql}` is a form fakesnow does not support; it must be rejected or answered correctly, but it left {o['t']} ({o['err']}), expected {want}", {"sql": sql, "impl": o})
+    # the same with equally named columns in target and source and a SET expression that reads the target column
+    from fakesnow.instance import FakeSnow
+
+    fs_ = FakeSnow()
+    c_ = fs_.connect(database="DB1", schema="S1")
+    cur_ = c_.cursor()
+    for tn, sn in (("inventory", "shipments"), ("t1", "t2"), ("stock", "arrivals")):
+        cur_.execute(f"create or replace table {tn} (sku int, qty int)")
+        cur_.execute(f"create or replace table {sn} (sku int, qty int)")
+        cur_.execute(f"insert into {tn} values (1, 10), (2, 20)")
+        cur_.execute(f"insert into {sn} values (1, 5), (2, 7), (3, 40)")
+        sql = (f"merge into {tn} using {sn} on {tn}.sku = {sn}.sku when matched then update set qty = {tn}.qty + {sn}.qty "
+               f"when not matched then insert (sku, qty) values ({sn}.sku, {sn}.qty)")
+        ck.cov["evaluations"] += 1
+        try:
+            cur_.execute(sql)
+            err = None
+        except Exception as e:  # noqa: BLE001
+            err = f"{type(e).__name__}: {str(e)[:100]}"
+        got = sorted(c_.cursor().execute(f"select * from {tn}").fetchall())
+        if err and got == [(1, 10), (2, 20)]:
+            known_or_report("C12-set-expression", f"`{sql}`: {err}", {"sql": sql})
+        elif err or got != [(1, 15), (2, 27), (3, 40)]:
+            report("setexpr", f"`{sql}` leaves {got} ({err}); Snowflake's MERGE gives [(1, 15), (2, 27), (3, 40)]", {"sql": sql, "target_after": got})
+    fs_.duck_conn.close()
     if n_dom < len(cases) * 0.3:
         raise core.MachineryError(f"only {n_dom}/{len(cases)} generated merges fall inside dom - generator degraded")
     ck.cov["distinct_nontrivial"] = n_nontrivial
